@@ -2,7 +2,7 @@
 # dev helper: runsc.sh <scenario> <first> <count> [tier] -> summary
 BIN=$(/verif/build.sh sim | tail -1) || exit 2
 OUT=$(mktemp /verif/target/dev-XXXX.jsonl)
-VERIF_JOB='{"scenario":"'$1'","tier":"'${4:-quick}'","seeds":['$2','$3']}' VERIF_OUT=$OUT LD_PRELOAD=/verif/target/libverif_entropy.so RUST_LOG=off $BIN verif::entry --exact --nocapture --test-threads 1 2>&1 | grep -E "test result|panicked" | head -5
+VERIF_JOB='{"scenario":"'$1'","tier":"'${4:-quick}'","seeds":['$2','$3']}' VERIF_OUT=$OUT LD_PRELOAD=/verif/target/libverif_entropy.so RUST_LOG=off $BIN verif::entry --exact --nocapture --test-threads 1 >/dev/null 2>&1
 python3 - $OUT <<'PY'
 import json,collections,sys
 c=collections.Counter(); cl=collections.Counter(); pr=collections.Counter(); oc=collections.Counter()
